@@ -99,6 +99,8 @@ type rtCtr struct {
 	// every configuration accepted since: a reconfiguration may or may not
 	// have re-allocated the container under it
 	LaterCfgs []*vhConfig
+	// CPU requests of UpdateContainer calls that the plugin refused
+	FailedReqs []int64
 }
 
 type rtPod struct {
@@ -549,10 +551,18 @@ func (e *executor) exec(op hcOp) *stepResult {
 		r.Handler, r.Target = "UpdateContainer", c.ID
 		nc := m.nriCtr(c)
 		r.Updates, r.Err = p.UpdateContainer(bg, m.nriPod(pod), nc, res)
+		if r.Err != nil {
+			fr := spec.MilliCPU
+			if pod.Spec.QoS == "besteffort" {
+				fr = 0
+			}
+			c.FailedReqs = append(c.FailedReqs, fr)
+		}
 		if r.Err == nil {
 			// the runtime applies the kubelet's values (unless the plugin overrides them in its reply)
 			c.Spec = spec
-			c.AllocCfg = e.cfg
+			// an update re-allocates unless the plugin considers the resources identical
+			c.LaterCfgs = append(c.LaterCfgs, e.cfg)
 			c.ReqMilli, c.LimMilli = spec.MilliCPU, spec.LimitCPU
 			if pod.Spec.QoS == "besteffort" {
 				c.ReqMilli = 0
